@@ -10,6 +10,7 @@
 -/
 import Cpf.Query.Output
 import Cpf.Generated.Tables
+import Cpf.Lemmas.JsonDoc
 
 namespace Cpf.Props.C15
 open Cpf.Query
@@ -94,6 +95,37 @@ theorem C15_numbered (line : Nat) (ls : List String) (i : Nat) (hi : i < ls.leng
 theorem stripQuotes_quoted (s : List Char) (h : ∀ c ∈ s, c ≠ '"' ∨ True) :
     stripQuotes ('"' :: s ++ ['"']) = s := by
   simp [stripQuotes]
+
+/-! ### the JSON report is one well-formed document -/
+
+section json
+open Cpf.Rules.JsonDoc
+
+/-- the document `processQuery` marshals in JSON mode: `{"output": rows, "result_set": [{"code","file","line"}…]}`
+    (encoding/json writes the keys of a Go map in sorted order) -/
+def reportDoc (rows : List (List JV)) (ents : List (List Char × List Char × List Char)) : JV :=
+  .obj [("output".toList, .arr (rows.map JV.arr)),
+        ("result_set".toList, .arr (ents.map (fun e => JV.obj [("code".toList, .str e.1), ("file".toList, .str e.2.1), ("line".toList, .num e.2.2)])))]
+
+/-- **C15 (JSON mode)**: every JSON document — any nesting of arrays and objects, any string content (quotes,
+    backslashes, control characters, `<`, `>`, `&`, U+2028, non-BMP characters, written-out escapes) — is read
+    back from its compact encoding exactly: the output is one well-formed document that preserves the text. The
+    encoder is compared byte for byte with the CLI's JSON output on every run (checks/c15.py). -/
+theorem C15_json_document (v : JV) (hw : wf v = true) : decode (enc v) = some v := decode_enc v hw
+
+/-- in particular the report of a query, for every list of rows and every list of reported entities -/
+theorem C15_json_report (rows : List (List JV)) (ents : List (List Char × List Char × List Char))
+    (hw : wf (reportDoc rows ents) = true) : decode (enc (reportDoc rows ents)) = some (reportDoc rows ents) :=
+  decode_enc _ hw
+
+/-- Non-vacuity: a snippet with quotes, a backslash, a written-out unicode escape, `<&>` and a line break. -/
+example :
+    let d := reportDoc [[.str "m".toList, .arr [.str "@A".toList]]] [("String s = \"a\\u003c<&>\n\";".toList, "src/F.java".toList, "12".toList)]
+    wf d = true ∧ decode (enc d) = some d := by
+  refine ⟨by decide, ?_⟩
+  exact decode_enc _ (by decide)
+
+end json
 
 /-- Regenerated: `--output-file` is opened with `os.Create` (create or truncate), the whole result string is written
     to it once, and it is closed — so the file holds exactly what the chosen mode prints, whatever it held before. -/
